@@ -36,20 +36,20 @@ CHECKS = [
   "workers under seeded random/sticky/PCT-like schedules with a failure at a seeded request. Oracle over the recorded history: the printed phrase is a valid "
   "L-word BIP-39 phrase whose entropy is exactly one of the byte strings the source delivered to this process in a request of exactly ENT bytes; unsupported "
   "lengths refused; a failure before any qualifying value means error exit and empty stdout (multi-worker: success only with delivered qualifying entropy, error "
-  "only if a failure was delivered); every printed phrase is accepted by the real `address --mnemonic`. Sampling, not proof.",
+  "only if a failure was delivered; a failure delivered to a task that finished before the printed value existed must make the command fail; no task may request again after its request failed); every printed phrase is accepted by the real `address --mnemonic`. A library scenario (2..4 real threads calling Mnemonic::random concurrently under the shim's scheduler, E3) requires every phrase to carry bytes delivered to that thread's own requests. One threaded scenario in six runs on the real binary under E3. Sampling, not proof.",
   "DESIGN.md §5.1",
   "Trusted: RustCrypto primitives and the canonical English list copy used by the reference BIP-39; the kernel/loader; shuttle's thread/channel models. "
   "E1 never decides a run with more than one searching thread; E2 stubs src/main.rs and is cross-validated against E1 on single-searcher runs. "
-  "Exact-membership provenance deliberately counts 'several smaller requests' as a violation of the anchored single-call mechanism.",
+  "Provenance = the printed entropy occurs at a byte boundary inside one successful delivery (the device is a byte stream, so read-ahead/pool implementations are served and accepted); a request smaller than ENT is a violation. E2 verdicts of kind panic/hang are confirmed on the real binary under E3 before they are believed (DESIGN.md §12.4).",
   "deterministic simulation: enumerated + seeded fault injection at the getentropy boundary (LD_PRELOAD / link-time device), seeded scheduler for the threaded search, history oracle against a reference BIP-39",
   "procsim (E1) + threadsim (E2)"),
  ("C18", "exploration",
   "Seeded exploration over schedules x entropy plans x configurations of the vanity search under our own seeded recording scheduler (E2): all 16 one-digit "
   "prefixes in both cases x thread counts 0,1,2,16 enumerated every run, then seeded scenarios (prefix of 0..40 digits derived from the reference address of a "
   "planted entropy value, per-letter case flips, passphrases, account index or explicit path, 0..64 workers, plant position 0..12, random/sticky/PCT-like "
-  "policies). Oracle: exit 0 => one line, a reference-valid phrase of the requested length whose reference-derived address for the selected account starts "
+  "and stall-at-publish policies; one search in sixty is deep: plant at draw 50..70 with a non-matching aftermath). Oracle: exit 0 => one line, a reference-valid phrase of the requested length whose reference-derived address for the selected account starts "
   "with the requested digits and whose entropy was really delivered; valid arguments and no injected failure => exit 0; non-hex prefix refused; bounded "
-  "liveness after the device turns generous; no deadlock. Failures are replayed from an explicit minimised choice trace. Sampling, not proof.",
+  "liveness after the device turns generous (384+96*workers further requests); no deadlock; a non-hex prefix is refused (printing a phrase or starting a search both count as acceptance). One threaded scenario in six runs on the real binary under the shim's scheduler (E3). Failures are replayed from an explicit minimised choice trace. Sampling, not proof.",
   "DESIGN.md §5.2",
   "Decided by simulation: independence of the result from which worker finishes first and from the interleaving of entropy delivery and channel operations. "
   "The prefix parsing/comparison clauses for a fixed schedule are input properties sampled by the same workload. Trusted: reference wallet (RustCrypto), shuttle models; "
@@ -59,9 +59,9 @@ CHECKS = [
  ("C17", "exploration",
   "Two halves. (i) Decided by schedule/fault search (E2): `new` with 0..64 workers x argument tuples that make key derivation fail or die inside a worker, "
   "entropy failures at every early position, all scheduler policies; invariant: no task panics, no deadlock before exit (a dead worker is modelled as thread "
-  "death, so 'all workers died' shows up as the main thread blocked for ever), exit within 16*(workers+2) steps once the device is generous. "
-  "(ii) Sampled by the workload (E1, real binary): boundary-biased and mutated-valid inputs for every user-reachable parser; invariant: exit status in {0,2,255}, "
-  "no signal, termination within 10 s. Half (ii) is input generation run by the simulator, not a decision by simulation. Sampling, not proof.",
+  "death, so 'all workers died' shows up as the main thread blocked for ever), exit within 384+96*workers further entropy requests once the device is generous; every such verdict of E2 is confirmed on the real binary under E3 before it is reported. 56 enumerated legacy transactions sit at the EIP-155 v-overflow limit +-3. "
+  "(ii) Sampled by the workload (E1, real binary): boundary-biased and mutated-valid inputs for every user-reachable parser; invariant: exit status is not 101 (panic), "
+  "no signal, termination within 10 s (a timeout is re-run alone before it is believed). Half (ii) is input generation run by the simulator, not a decision by simulation. Sampling, not proof.",
   "DESIGN.md §5.3",
   "Checked-optimised build (overflow-checks, debug-assertions) so overflow is a panic. Worker counts bounded to 0..=64, prefixes to what the planted/generous device can "
   "satisfy. A parser panic the generator does not draw is not found; per-family counts are in the evidence. Library-level entry points not reachable from the CLI "
